@@ -147,3 +147,31 @@ Theorem C04_modelled_functions_are_the_source's :
   gen_src_group_mean = src_group_mean.
 Proof. exact (conj pin_group_by_reduce (conj pin_apply_group_method_single_chunk (conj pin_chunk_groupby_args (conj pin_reduce_array_pair (conj pin_combine_chunk_results (conj pin_group_func_wrap (conj pin_build_target_for_groupby pin_group_mean))))))). Qed.
 Print Assumptions C04_modelled_functions_are_the_source's.
+
+(* The floating-point side, bit for bit.  Model/ReduceFloat.v transcribes the grouped float64 sums (nansum / sum / nansum_squares:
+   array_split pieces, per-piece per-group running sums, left-to-right merge skipping empty partials) in Coq's primitive binary64
+   floats; C04's stream runs it inside Coq against the real _group_func_wrap.  For EVERY float64 input, mask and thread count:
+   np.array_split loses and duplicates no row; the count of a group is the number of its kept rows the reducer takes - whatever the
+   number of threads; a group without such rows is (0.0, 0) - nothing of a neighbouring group or piece leaks into it.  The value
+   of a non-empty group is exact whenever its partial sums are representable (the theorems above); beyond that it depends on the
+   bracketing, as the example shows - which the model reproduces and Proofs/VarFloat.sum_error bounds. *)
+From Coq Require Import PrimFloat.
+From GL Require Model.ReduceFloat Proofs.ReduceFloatProofs.
+Theorem C04_array_split_loses_nothing (A : Type) (l : list A) k : (0 < k)%nat -> concat (ReduceFloat.array_split l k) = l.
+Proof. exact (ReduceFloatProofs.array_split_concat l k). Qed.
+Theorem C04_float_count_any_threads f keys vals mask nt g : (0 < nt)%nat ->
+  snd (ReduceFloat.group_reduce_f f keys vals mask nt g) = ReduceFloatProofs.count_rows f g (ReduceFloat.keep_rows keys vals mask).
+Proof. exact (ReduceFloatProofs.count_any_threads f keys vals mask nt g). Qed.
+Theorem C04_float_empty_group_any_threads f keys vals mask nt g : (0 < nt)%nat ->
+  ReduceFloatProofs.count_rows f g (ReduceFloat.keep_rows keys vals mask) = 0%nat ->
+  ReduceFloat.group_reduce_f f keys vals mask nt g = (PrimFloat.zero, 0%nat).
+Proof. exact (ReduceFloatProofs.empty_group_any_threads f keys vals mask nt g). Qed.
+Print Assumptions C04_array_split_loses_nothing.
+Print Assumptions C04_float_count_any_threads.
+Print Assumptions C04_float_empty_group_any_threads.
+Example C04_float_model_example :
+  let keys := [0; 0; 0; 0] in let vals := [1e16; 1; -1e16; 1]%float in
+  ReduceFloat.check_reduce (0%nat, 1%nat, keys, vals, [], 0, 1%float, 4) = true /\
+  ReduceFloat.check_reduce (0%nat, 2%nat, keys, vals, [], 0, 0%float, 4) = true /\
+  ReduceFloat.check_reduce (0%nat, 3%nat, [0; 1; -1; 0], [nan; 2; 5; nan]%float, [], 0, 0%float, 0) = true.
+Proof. vm_compute. repeat split. Qed.
